@@ -5,7 +5,9 @@
     thread and EVERY schedule, the pointer and the whole deliver thread (committed store, accounts
     written, tx failure flag, result/event log) are those of the run in which only the deliver thread
     is scheduled.  It is proved for [Isolated] (request steps never dereference, publish or clear the
-    shared pointer) and refuted for [Shared] (the code as it is). *)
+    shared pointer: the code since fix 509f604, see Gen/C09Oblig.v where the statement is instantiated
+    with the model selected by the regenerated facts of the current tree) and refuted for [Shared]
+    (every thread goes through the pointer: the code before the fix / after its reversal). *)
 From Coq Require Import List Bool Arith ZArith.
 Import ListNotations.
 Require Import Nib.C09.Model Nib.C09.Spec Nib.C09.Proofs.
